@@ -32,6 +32,19 @@ def cosigner(i):
 
 
 @functools.lru_cache(maxsize=None)
+def attacker(i):
+    """Another wallet whose key records are LABELLED with the honest cosigners' fingerprints."""
+    root = bip32ref.master(filler(0, "c11attacker", i, 32))
+    acct = bip32ref.derive_priv(root, BASE)
+    return {"xfp": cosigner(i)["xfp"], "acct": acct.neuter(), "xpub": acct.neuter().ser(bip32ref.version_bytes("xpub"), False)}
+
+
+@functools.lru_cache(maxsize=None)
+def attacker_sec(i, branch, idx):
+    return bip32ref.derive_pub(attacker(i)["acct"], [branch, idx]).sec()
+
+
+@functools.lru_cache(maxsize=None)
 def child_sec(i, branch, idx):
     return bip32ref.derive_pub(cosigner(i)["acct"], [branch, idx]).sec()
 
@@ -56,8 +69,11 @@ def path_bytes(xfp, branch, idx):
 
 
 # ------------------------------------------------------------------ honest PSBT through the library
-def build_honest(cfg):
-    """-> raw PSBT bytes produced by the library for configuration cfg."""
+def build_honest(cfg, who="honest"):
+    """-> raw PSBT bytes produced by the library for configuration cfg.
+    who="attacker": the same shape built over the attacker's xpubs, labelled with the honest fingerprints."""
+    cosigner = globals()["cosigner"] if who == "honest" else attacker
+    child_sec = globals()["child_sec"] if who == "honest" else attacker_sec
     from buidl.hd import HDPublicKey
     from buidl.psbt import PSBT, NamedHDPublicKey
     from buidl.psbt_helper import create_multisig_psbt
@@ -122,10 +138,10 @@ def build_honest(cfg):
 _cache = {}
 
 
-def honest(cfg):
-    key = tuple(sorted(cfg.items()))
+def honest(cfg, who="honest"):
+    key = (who,) + tuple(sorted(cfg.items()))
     if key not in _cache:
-        _cache[key] = build_honest(cfg)
+        _cache[key] = build_honest(cfg, who)
     return _cache[key]
 
 
@@ -332,6 +348,39 @@ def tamperings(cfg):
         if n >= 2:
             T["out-fewer-cosigners"] = (drop_one_key, None)
 
+        def attacker_keys_with_honest_labels(p):
+            # change script over the ATTACKER's keys, scriptPubKey consistent, every key's derivation labelled with
+            # the honest cosigner's fingerprint and path
+            secs = [attacker_sec(i, 1, 7) for i in range(n)]
+            sc = ms_script(m, secs)
+            om = [(k, v) for k, v in p["outs"][ci] if k[:1] not in (b"\x00", b"\x01", b"\x02")]
+            om.insert(0, (skey, sc))
+            for i, sk in enumerate(secs):
+                om.append((b"\x02" + sk, path_bytes(cosigner(i)["xfp"], 1, 7)))
+            p["outs"][ci] = om
+            p["tx"]["outs"][ci]["script"] = spk_for(st, sc)
+            retx(p)
+
+        T["out-attacker-keys-labelled-with-cosigner-fingerprints"] = (attacker_keys_with_honest_labels, None)
+
+        def both_scripts_foreign_spk(newspk):
+            def f(p):
+                # metadata of a p2sh-p2wsh change output (redeem script 0020<sha256(ws)> AND the honest witness script)
+                # attached to an output that pays somewhere else
+                om = [(k, v) for k, v in p["outs"][ci] if k[:1] not in (b"\x00", b"\x01")]
+                ws = ms_script(m, [child_sec(i, 1, 7) for i in range(n)])
+                om.insert(0, (b"\x01", ws))
+                om.insert(0, (b"\x00", b"\x00\x20" + txref.sha256(ws)))
+                p["outs"][ci] = om
+                p["tx"]["outs"][ci]["script"] = newspk
+                retx(p)
+
+            return f
+
+        T["out-both-scripts-attached+spk-foreign-p2wsh"] = (both_scripts_foreign_spk(b"\x00\x20" + b"\x6a" * 32), True)
+        T["out-both-scripts-attached+spk-p2tr"] = (both_scripts_foreign_spk(b"\x51\x20" + b"\x6b" * 32), True)
+        T["out-both-scripts-attached+spk-attacker-p2wpkh"] = (both_scripts_foreign_spk(b"\x00\x14" + b"\x6c" * 20), True)
+
         def second_change(p):
             p["tx"]["outs"].append(copy.deepcopy(p["tx"]["outs"][ci]))
             p["tx"]["outs"][-1]["amount"] = 1000
@@ -463,6 +512,13 @@ def gen_review(tier, seed):
         names = list(tamperings(cfg))
         for nm in names:
             cases.append({"cfg": cfg, "devs": [nm], "mode": "map"})
+        # histories: another wallet's PSBT (attacker's xpubs under the honest fingerprints, summarised with its own
+        # global xpubs) is described FIRST in the same process, then the tampered honest PSBT with the trusted map
+        if cfg["shape"] == "spend+change":
+            for nm in names:
+                if nm.startswith("out-attacker") or nm.startswith("out-derivation") or nm.startswith("out-all-keys") or nm.startswith("in-derivation"):
+                    cases.append({"cfg": cfg, "devs": [nm], "mode": "map", "prelude": "attacker-wallet"})
+            cases.append({"cfg": cfg, "devs": [], "mode": "map", "prelude": "attacker-wallet"})
         if tier == "thorough" and cfg["shape"] == "spend+change" and (cfg["m"], cfg["n"]) in ((2, 3), (1, 2)):
             for a, b in itertools.combinations(names, 2):
                 cases.append({"cfg": cfg, "devs": [a, b], "mode": "map"})
@@ -497,13 +553,19 @@ def run_review(case):
         res.skip("tampering is the identity here")
         return res
     hdmap = {cosigner(i)["xfp"].hex(): HDPublicKey.parse(cosigner(i)["xpub"]) for i in range(cfg["n"])}
+    if case.get("prelude") == "attacker-wallet":
+        araw = attempt(honest, cfg, "attacker")
+        if not isinstance(araw, Rejected):
+            # whatever this returns or raises is not judged: it only has to have happened in this process
+            attempt(lambda: PSBT.parse(BytesIO(araw), network="mainnet").describe_basic_multisig(hdpubkey_map={}))
+            attempt(lambda: PSBT.parse(BytesIO(araw), network="mainnet").describe_basic_multisig(hdpubkey_map={attacker(i)["xfp"].hex(): HDPublicKey.parse(attacker(i)["xpub"]) for i in range(cfg["n"])}))
 
     def describe():
         obj = PSBT.parse(BytesIO(raw2), network="mainnet")
         return obj.describe_basic_multisig(hdpubkey_map=hdmap if case["mode"] == "map" else {})
 
     d = attempt(describe)
-    devs = "+".join(case["devs"]) or "honest"
+    devs = ("+".join(case["devs"]) or "honest") + ("/after-attacker-wallet" if case.get("prelude") else "")
     if isinstance(d, Rejected):
         if not case["devs"]:
             res.violation(f"C11/review/honest-rejected/{cfg['stype']}", vc, repr(d), "summary", f"{label}: honest PSBT is not summarised")
